@@ -108,7 +108,7 @@ def tlc(module, cfg, workdir=None, workers=None, timeout=900, extra_files=(), si
     hard = re.search(r"Error: (?!Invariant|Action property|Temporal|Deadlock|The postcondition)(.*)", out)
     if viol is None and (p.returncode != 0 or not finished):
         if not quiet_fail:
-            sys.stderr.write(out[-4000:])
+            sys.stderr.write(out[-1800:])
         raise Infra("TLC failed (rc=%s) on %s %s: %s" % (p.returncode, module, cfg,
                                                        hard.group(0) if hard else "see output"))
     res["ok"] = viol is None
@@ -161,7 +161,36 @@ def go_env():
     return env
 
 
-def overlay(tmp, pkgs):
+def rewrite_dial(tmp):
+    """Copy of REPO/internal/system/dialer.go in which the three package-level
+    call targets inside (*Dialer).dial are renamed to harness functions.
+    Returns the path, or None if the function no longer has that shape."""
+    src = os.path.join(REPO, "internal/system/dialer.go")
+    text = open(src).read()
+    m = re.search(r"func \(d \*Dialer\) dial\(\) \(\*DialContext, error\) \{", text)
+    if not m:
+        return None
+    i = m.end()
+    depth = 1
+    while i < len(text) and depth > 0:
+        if text[i] == "{":
+            depth += 1
+        elif text[i] == "}":
+            depth -= 1
+        i += 1
+    body = text[m.end():i]
+    new = body
+    for a, b in (("lookupInterface(", "vfLookupInterface("), ("checkInterface(", "vfCheckInterface("),
+                 ("dialNDP(", "vfDialNDP(")):
+        if new.count(a) != 1:
+            return None
+        new = new.replace(a, b)
+    out = os.path.join(tmp, "dialer_rewritten.go")
+    open(out, "w").write(text[:m.end()] + new + text[i:])
+    return out
+
+
+def overlay(tmp, pkgs, replace=None):
     """Build an overlay JSON. pkgs: {repo-relative package dir: [harness files]}.
     Files from harness/common are templated with the package name. Test harness
     files get a _test.go name; files named *_export.go are added as non-test."""
@@ -184,17 +213,19 @@ def overlay(tmp, pkgs):
             else:
                 dst = os.path.join(REPO, pkgdir, "zz_" + base[:-3] + "_test.go")
             repl[dst] = src
+    for rel, src in (replace or {}).items():
+        repl[os.path.join(REPO, rel)] = src
     path = os.path.join(tmp, "overlay.json")
     json.dump({"Replace": repl}, open(path, "w"), indent=1)
     return path
 
 
-def go_test(pkgs, pkgdir, run, env=None, timeout=1200, race=False, tmp=None, cover=None):
+def go_test(pkgs, pkgdir, run, env=None, timeout=1200, race=False, tmp=None, cover=None, replace=None):
     """go test -overlay ... -run <run> ./<pkgdir>/ inside REPO. Returns output.
     Raises Infra on build failure or non-zero exit (harness tests never fail on
     purpose: verdicts come from trace validation)."""
     tmp = tmp or mktmp("vf-go-")
-    ov = overlay(tmp, pkgs)
+    ov = overlay(tmp, pkgs, replace)
     e = go_env()
     e.update(env or {})
     cmd = [GO, "test", "-overlay", ov, "-vet=off", "-count=1", "-timeout", "%ds" % timeout, "-run", run]
